@@ -175,6 +175,12 @@ fn run_g<C: Codec>(c: &Case, trace: bool) -> RunOut {
         v.extend((0..len).step_by(step));
         v.sort_unstable();
         v.dedup();
+        // long lists of long strings have thousands of field boundaries: every cut costs a copy of
+        // the prefix, so large encodings get at most ~600 cut positions
+        if v.len() > 600 {
+            let stride = v.len() / 600 + 1;
+            v = v.into_iter().step_by(stride).collect();
+        }
         v
     };
     for k in cuts {
